@@ -420,7 +420,8 @@ def argreduce_preprocess(array, axis):
     import numpy as np
 
     # TODO: arg reductions along multiple axes seems weird.
-    assert len(axis) == 1
+    if len(axis) != 1:
+        raise NotImplementedError("arg reductions along multiple axes are not supported for dask arrays.")
     axis = axis[0]
 
     idx = dask.array.arange(array.shape[axis], chunks=array.chunks[axis], dtype=np.intp)
@@ -796,7 +797,8 @@ def _initialize_aggregation(
             # TODO: need better interface
             # we set dtype, fillvalue on reduction later. so deepcopy now
             agg_ = copy.deepcopy(AGGREGATIONS[func])
-            assert isinstance(agg_, Aggregation)
+            if not isinstance(agg_, Aggregation):
+                raise NotImplementedError(f"{func!r} is a scan, not a reduction. Use groupby_scan instead.")
             agg = agg_
         except KeyError:
             raise NotImplementedError(f"Reduction {func!r} not implemented yet")
